@@ -1,0 +1,7 @@
+//go:build verif
+
+package parser
+
+// VerifLexerStateCount returns the number of live entries in the process-global
+// lexer state map (simulation builds only).
+func VerifLexerStateCount() int { return lexerStates.Len() }
